@@ -34,6 +34,8 @@ structure Match where
   sym : Option String
   name : Option String
   unk : Option String
+  /-- `m.end()`: offset in the source just after the match (used by the comment scanner only) -/
+  stop : Nat
   deriving DecidableEq, Repr
 
 /-- the symbol table of a parser class: lookup key ↦ label of the registered token class
@@ -200,7 +202,9 @@ def pyOracles (nameLike : String → Bool) : Oracles :=
     intOk := fun l => l.length ≤ 4300 }
 
 
-/-! ## comments: `Parser.advance_until` and `XPath2Parser.advance` -/
+/-! ## `Parser.advance_until`, and the comment skipping of `XPath2Parser.advance` as it was BEFORE commit
+1bbf01f (token-based; kept because `advance_until` is still used by the `Q{…}` literal and the theorems
+about it remain true).  The live comment handling is `advance3` below. -/
 
 /-- `str.strip()` -/
 def pyStrip (s : String) : String :=
@@ -279,6 +283,76 @@ def lexAll2 (tb : Table) (o : Oracles) : Nat → Cursor Tok Match → List Strin
       if c'.nextToken.symbol == "(end)" then (["(end)"], none, "(end)")
       else
         let (l, e, last) := lexAll2 tb o fuel c'
+        (c'.nextToken.symbol :: l, e, last)
+
+
+/-! ## the live `XPath2Parser.advance` (since commit 1bbf01f): the comment body is scanned on the RAW SOURCE -/
+
+/-- `str.find(a + b, pos)` on the suffix `l` of the source that starts at offset `i` -/
+def find2 (a b : Char) : List Char → Nat → Option Nat
+  | x :: y :: rest, i => if x == a && y == b then some i else find2 a b (y :: rest) (i + 1)
+  | _, _ => none
+
+/-- the `while comment_level:` loop (xpath2_parser.py): `none` = out of fuel (never, see
+`EPV.C03.comment_scan_terminates`), `some none` = no closing `:)` (XPST0003), `some (some p)` = offset just
+after the `:)` that closes the outermost comment -/
+def commentScan (src : List Char) : Nat → Nat → Nat → Option (Option Nat)
+  | _, 0, pos => some (some pos)
+  | 0, _ + 1, _ => none
+  | fuel + 1, level + 1, pos =>
+    match find2 ':' ')' (src.drop pos) pos with
+    | none => some none                                         -- `if end < 0:`
+    | some e =>
+      match find2 '(' ':' (src.drop pos) pos with
+      | some s => if s < e then commentScan src fuel (level + 2) (s + 2)     -- `elif 0 <= start < end:`
+                  else commentScan src fuel level (e + 2)
+      | none => commentScan src fuel level (e + 2)
+
+/-- the `while self.next_token.symbol == '(:'` loop.  `tokFrom p` = `tokenizer.finditer(source, p)` (the
+`re` engine: an oracle, constrained in the theorems only by: matches lie after `p` inside the source and
+come from the 5-alternative pattern). -/
+def commentSkip (tb : Table) (o : Oracles) (src : List Char) (tokFrom : Nat → List Match) :
+    Nat → Cursor Tok Match → Except Err Unit × Cursor Tok Match
+  | 0, c => (.error (.other "fuel"), c)
+  | fuel + 1, c =>
+    if c.nextToken.symbol != "(:" then (.ok (), c)
+    else if c.token.symbol == ":" then (.error (.coded (wrongSyntaxCode c.token)), c)      -- `self.token.unexpected(':')`
+    else
+      match c.nextMatch with
+      | none => (.error (.other "AssertionError"), c)                                      -- `assert self.next_match is not None`
+      | some m =>
+        match commentScan src (src.length + 1) 1 m.stop with
+        | none => (.error (.other "fuel"), c)
+        | some none =>                                                                      -- unterminated comment
+          match mk tb "(end)" "(end)" with
+          | .ok t => (.error (.coded (wrongSyntaxCode t)), { c with tokens := [], nextToken := t })
+          | .error e => (.error e, { c with tokens := [] })
+        | some (some p) =>
+          let c2 := { c with tokens := tokFrom p, nextToken := c.token }
+          match advance tb o [] c2 with
+          | (.error e, c3) => (.error e, c3)
+          | (.ok (), c3) =>
+            if c3.nextToken.symbol == ":" then (.error (.coded (wrongSyntaxCode c3.nextToken)), c3)
+            else commentSkip tb o src tokFrom fuel c3
+
+/-- `XPath2Parser.advance(*symbols)`: the base `advance`, then the comment loop -/
+def advance3 (tb : Table) (o : Oracles) (src : List Char) (tokFrom : Nat → List Match)
+    (symbols : List String) (c : Cursor Tok Match) : Except Err Unit × Cursor Tok Match :=
+  match advance tb o symbols c with
+  | (.error e, c1) => (.error e, c1)
+  | (.ok (), c1) => commentSkip tb o src tokFrom (src.length + 2) c1
+
+/-- lexing a whole source with the live `XPath2Parser.advance` -/
+def lexAll3 (tb : Table) (o : Oracles) (src : List Char) (tokFrom : Nat → List Match) :
+    Nat → Cursor Tok Match → List String × Option Err × String
+  | 0, c => ([], some (.other "fuel"), c.nextToken.symbol)
+  | fuel + 1, c =>
+    match advance3 tb o src tokFrom [] c with
+    | (.error e, c') => ([], some e, c'.nextToken.symbol)
+    | (.ok (), c') =>
+      if c'.nextToken.symbol == "(end)" then (["(end)"], none, "(end)")
+      else
+        let (l, e, last) := lexAll3 tb o src tokFrom fuel c'
         (c'.nextToken.symbol :: l, e, last)
 
 end EPV.Lexer
